@@ -307,7 +307,7 @@ def insert_terminals(tree, **params):
     for terminal_num in sorted(insert_terminals.terminals[tree.data['sid']],
                                key=int):
         if terminal_num > len(trees.terminals(tree)) + 1 \
-                or terminal_num == 0:
+                or terminal_num < 1:
             if 'quiet' not in params:
                 print("sentence length %d, cannot insert at %d"
                       % (len(trees.terminals(tree)),
